@@ -221,7 +221,7 @@ def F_nilStructDeref (i : IfaceSpec) (calls : List Call) : Bool :=
   calls.any (fun c => match findMethod i c.method with
     | none => false
     | some m => !m.verb.hasBody && m.params.any (fun p =>
-        isStructParam p && p.ptr && !(fieldsOf p).isEmpty &&
+        isStructParam p && !(fieldsOf p).isEmpty &&
         (match getKV c.args p.name with | some (.struct true _) => true | _ => false)))
 
 /-- F_pathArgBrace (Q4): an argument substituted into the path contains `{` — inside the quantifier
